@@ -3,7 +3,7 @@
 Require Extraction.
 Require Import ExtrOcamlBasic ExtrOcamlZBigInt.
 From Coq Require Import ZArith QArith String.
-From GMGP Require Import Scalar GridDefs TridiagDefs SparseLUDefs ObjectsDefs InterpDefs.
+From GMGP Require Import Scalar GridDefs TridiagDefs SparseLUDefs ObjectsDefs InterpDefs StencilDefs.
 From GMGPGen Require Import GridIndexGen SpecialMembersGen.
 
 Extraction Language OCaml.
@@ -38,6 +38,10 @@ Definition q_Rex_row := @Rex_row Qsc.
 Definition q_Inj_row := @Inj_row Qsc.
 Definition q_FMG_row := @FMG_row Qsc.
 
+Definition q_A_take_row := @A_take_row Qsc.
+Definition q_A_give_row := @A_give_row Qsc.
+Definition q_rhs_weight := @rhs_weight Qsc.
+
 Extraction "model"
   Qsc Qltb Qred Qplus Qminus Qmult Qdiv Qopp Qle_bool Qeq_bool
   Z.add Z.sub Z.mul Z.opp Z.pow Z.ltb Z.eqb Z.of_nat Z.to_nat Pos.add Pos.mul
@@ -50,4 +54,5 @@ Extraction "model"
   gen_SymmetricTridiagonalSolver_copy_assign gen_SymmetricTridiagonalSolver_move_ctor
   gen_SymmetricTridiagonalSolver_move_assign
   q_lu_factor q_lu_solve q_csr_apply q_pivots q_csr_of_triplets q_csr_of_arrays
-  q_P_row q_R_row q_Pex_row q_Rex_row q_Inj_row q_FMG_row wrap1.
+  q_P_row q_R_row q_Pex_row q_Rex_row q_Inj_row q_FMG_row wrap1
+  q_A_take_row q_A_give_row q_rhs_weight.
